@@ -7,14 +7,20 @@
 
 struct log_type *log_core;
 int vp_fatal_seen;
+/* obligations a harness wants checked at the point where the process would die */
+void (*vp_fatal_hook)(void);
 
 void log_message(struct log_type *type, enum log_severity sev, const char *format, ...)
 {
     (void)type; (void)format;
     if (sev == LOG_FATAL) {
         vp_fatal_seen = 1;
+        if (vp_fatal_hook)
+            vp_fatal_hook();
 #ifdef REPLAY
-        _exit(77);
+        fflush(NULL);
+        fprintf(stderr, "VP-REPLAY: LOG_FATAL reached: the process would exit(1) here\n");
+        _exit(0);
 #else
         __CPROVER_assume(0);
 #endif
